@@ -1,5 +1,6 @@
 (* Property C18 — invalid configurations are rejected up front; accepted ones are valid;
-   the defaults filled in by setup_config are a fixed point.
+   the defaults filled in by setup_config are a fixed point; the route by which a configuration
+   reaches setup_config (fresh input file / restart file) makes no difference.
    This file only restates the results proved in proofs/ConfigP.v (model: model/ConfigM.v,
    the code with proposed_fixes/C18_check_config.diff applied), so that the statements cannot
    be weakened silently; each is followed by Print Assumptions.  All statements are
@@ -107,6 +108,63 @@ Theorem C18_setup_config : forall c,
 Proof. exact setup_config_spec. Qed.
 Print Assumptions C18_setup_config.
 
+(* the route by which the configuration arrives - a fresh input file, or a restart file (the one
+   the program wrote, edited or not) at any step, finished or not, with or without its paths -
+   is no excuse.  [setup_from steps cur c]: cur = None for a file without a [current] table,
+   Some k for one with it; the answer None stands for "setup_config returns None".
+   Whenever there is an answer it is the normalised configuration, checked: *)
+Theorem C18_setup_any_route : forall steps cur c c' r,
+  setup_from steps cur c = Some (c', r) ->
+  c' = normalise c /\ normalise c' = c' /\
+  (r = Ok -> valid c') /\ (~ valid c' -> exists k, r = ConfigError k /\ err_holds c' k) /\
+  r <> Crash IndexError.
+Proof. exact setup_any_route. Qed.
+Print Assumptions C18_setup_any_route.
+
+(* an invalid configuration never gets as far as sampling, by any route *)
+Theorem C18_invalid_never_starts : forall steps cur c,
+  ~ valid (normalise c) -> ~ sampling_starts (setup_from steps cur c).
+Proof. exact invalid_never_starts. Qed.
+Print Assumptions C18_invalid_never_starts.
+
+(* both values of "is a restart": the invalid configuration is answered with a configuration
+   error that names a violated clause - from a fresh file always, from a restart file
+   whenever the run would go on (not finished, paths there) *)
+Theorem C18_fresh_rejects_invalid : forall steps c,
+  ~ valid (normalise c) ->
+  exists e, setup_from steps None c = Some (normalise c, ConfigError e) /\
+            err_holds (normalise c) e.
+Proof. exact fresh_rejects_invalid. Qed.
+Print Assumptions C18_fresh_rejects_invalid.
+
+Theorem C18_restart_rejects_invalid : forall steps k c,
+  cstep k <> steps -> paths_present k = true -> ~ valid (normalise c) ->
+  exists e, setup_from steps (Some k) c = Some (normalise c, ConfigError e) /\
+            err_holds (normalise c) e.
+Proof. exact restart_rejects_invalid. Qed.
+Print Assumptions C18_restart_rejects_invalid.
+
+(* a restart that goes on is treated exactly like a fresh start; no answer is given only for a
+   restart file that is finished or lacks a path; sampling starts exactly when there is an
+   answer and check_config let the normalised configuration through *)
+Theorem C18_route_irrelevant : forall steps k c,
+  cstep k <> steps -> paths_present k = true ->
+  setup_from steps (Some k) c = setup_from steps None c.
+Proof. exact setup_from_route_irrelevant. Qed.
+Print Assumptions C18_route_irrelevant.
+
+Theorem C18_setup_none : forall steps cur c,
+  setup_from steps cur c = None <->
+  exists k, cur = Some k /\ (cstep k = steps \/ paths_present k = false).
+Proof. exact setup_from_none. Qed.
+Print Assumptions C18_setup_none.
+
+Theorem C18_sampling_starts_iff : forall steps cur c,
+  sampling_starts (setup_from steps cur c) <->
+  setup_from steps cur c <> None /\ check_config (normalise c) = Ok.
+Proof. exact sampling_starts_iff. Qed.
+Print Assumptions C18_sampling_starts_iff.
+
 (* non-vacuity.  A wire-fencing configuration with a cap is valid and accepted ... *)
 Definition ex_sections : list (name * section) :=
   [(name_engine, mkS (Some OtherClass) (Some 0%Z) 7%Z)].
@@ -139,4 +197,25 @@ Example C18_example_L8 :
 Proof.
   repeat split; try (vm_compute; reflexivity).
   intro V. apply validb_spec in V. vm_compute in V. discriminate.
+Qed.
+
+(* ... and a restart file of a valid run (step 4 of 10) that was edited: more steps only is
+   accepted and sampling goes on; more workers than ensembles minus one, swapped interfaces or
+   a cap on the interface of the wire-fencing ensemble are configuration errors *)
+Example C18_example_restart :
+  let k := mkCur 4 true in
+  let good := ex_cfg [0; 1; 2; 3] [Sh; Sh; Wf; Wf] (Some (5 # 2)) (Some (Some (-1))) in
+  sampling_starts (setup_from 20 (Some k) (normalise good)) /\
+  setup_from 4 (Some k) (normalise good) = None /\
+  (exists c', setup_from 20 (Some k)
+     (mkC [0; 1; 2; 3] 100%Z [Sh; Sh; Wf; Wf] (Some (5 # 2)) None None None None None ex_sections)
+     = Some (c', ConfigError EWorkers)) /\
+  (exists c', setup_from 20 (Some k) (ex_cfg [0; 2; 1; 3] [Sh; Sh; Wf; Wf] None None)
+     = Some (c', ConfigError EUnsorted)) /\
+  (exists c', setup_from 20 (Some k) (ex_cfg [0; 1; 2; 3] [Sh; Sh; Sh; Wf] (Some 2) None)
+     = Some (c', ConfigError (ECapWf 3))).
+Proof.
+  cbn zeta. split; [eexists; vm_compute; reflexivity|].
+  split; [vm_compute; reflexivity|].
+  repeat split; eexists; vm_compute; reflexivity.
 Qed.
